@@ -5,7 +5,8 @@ package main
 //
 //   int      decimal                      optint   - | decimal
 //   bytes    n (nil) | x<hex> (x = empty, non-nil) | k<ord> (atom: the public key bytes of key <ord>)
-//   str      s<cp.cp...> (s = "") | h<ord> (atom: an opaque non-empty ASCII string: hash, signature, key hex)
+//   str      s<cp.cp...> (s = "") | h<ord> (atom: an opaque non-empty ASCII string: hash, key hex)
+//            | g<ord> (atom: a real signature string "r|s" as keys.EncodeSignature writes it)
 //            a code point is printed in decimal; an INVALID UTF-8 byte b is printed as -(b+1)
 //   list<X>  N (nil slice / nil map) | L<k> X*k
 //   peer     str(NetAddr) str(PubKeyHex) str(Moniker)
@@ -40,10 +41,21 @@ import (
 
 type atoms struct {
 	str   map[string]int
+	sig   map[string]int
 	bytes map[string]int
 }
 
-func newAtoms() *atoms { return &atoms{str: map[string]int{}, bytes: map[string]int{}} }
+func newAtoms() *atoms {
+	return &atoms{str: map[string]int{}, sig: map[string]int{}, bytes: map[string]int{}}
+}
+
+// G registers a real signature string ("r|s" in base 36, as keys.EncodeSignature writes it)
+func (a *atoms) G(s string) string {
+	if _, ok := a.sig[s]; !ok {
+		a.sig[s] = len(a.sig)
+	}
+	return s
+}
 
 // S registers an opaque string (hash / signature / key hex) and returns it.
 func (a *atoms) S(s string) string {
@@ -102,6 +114,10 @@ func (t *tw) bytes(b []byte) {
 func (t *tw) str(s string) {
 	if o, ok := t.a.str[s]; ok && s != "" {
 		t.tok(fmt.Sprintf("h%d", o))
+		return
+	}
+	if o, ok := t.a.sig[s]; ok {
+		t.tok(fmt.Sprintf("g%d", o))
 		return
 	}
 	var sb strings.Builder
